@@ -363,6 +363,15 @@ func cmdCheck(args []string) int {
 	as = append(as, "nil-pointer dereference of receivers/pointer parameters is not checked", "out-of-memory, stack exhaustion and goroutine scheduling are outside the model",
 		"Go integers are modelled exactly (wrap-around for unsigned, overflow obligation for signed); floating point is uninterpreted")
 	as = append(as, w.propertyNotes(*prop)...)
+	usedAxMu.Lock()
+	for ax := range usedAxGlobal {
+		where := "spec"
+		if ax.Pkg != "" {
+			where = "contract file of " + ax.Pkg[strings.LastIndex(ax.Pkg, "/")+1:]
+		}
+		as = append(as, "axiom ["+ax.Name+"] ("+where+", unchecked): "+trunc(ax.Src, 220))
+	}
+	usedAxMu.Unlock()
 	for _, rl := range w.Specs.Relies {
 		if strings.HasPrefix(rl, *prop+" ") || strings.HasPrefix(rl, "all ") {
 			as = append(as, "assumed: "+strings.TrimSpace(rl[strings.Index(rl, " "):]))
